@@ -34,6 +34,9 @@ type Atom struct {
 	E     *Expr  `json:"e,omitempty"`     // paren contents
 	SpIn  string `json:"spin,omitempty"`  // blanks after '('
 	SpOut string `json:"spout,omitempty"` // blanks before ')'
+	// Clamp / CN: dice with a min<CN> or max<CN> clause (every die is raised to / cut at CN)
+	Clamp string `json:"clamp,omitempty"`
+	CN    int64  `json:"cn,omitempty"`
 }
 
 // Expr is [-] atom (op atom)*, ops from + - *; Spaced puts blanks round the
@@ -63,6 +66,9 @@ type Case struct {
 	Mode  string `json:"mode,omitempty"` // "" | min | max
 	Edits []Edit `json:"edits"`
 	Tail  string `json:"tail,omitempty"` // text that is not an edit (section tails)
+	// Via: "" = Context.Run; "expr" = Context.RunExpr, the entry point a host uses while the VM is busy with another
+	// command (the rest text cannot be observed there)
+	Via string `json:"via,omitempty"`
 }
 
 // ---------------------------------------------------------------------------
@@ -75,8 +81,14 @@ func (a Atom) text() string {
 	case "float":
 		return a.F
 	case "dice":
+		if a.Clamp != "" {
+			return fmt.Sprintf("%dd%d%s%d", a.I, a.M, a.Clamp, a.CN)
+		}
 		return fmt.Sprintf("%dd%d", a.I, a.M)
 	case "d":
+		if a.Clamp != "" {
+			return fmt.Sprintf("d%d%s%d", a.M, a.Clamp, a.CN)
+		}
 		return fmt.Sprintf("d%d", a.M)
 	case "paren":
 		return "(" + a.SpIn + a.E.text() + a.SpOut + ")"
@@ -200,10 +212,17 @@ func (a Atom) eval(mode string) num {
 		if a.K == "d" {
 			n = 1
 		}
+		die := int64(1) // every die shows 1: one-sided, or min mode
 		if mode == "max" {
-			return num{i: n * a.M}
+			die = a.M
 		}
-		return num{i: n} // every die shows 1: one-sided, or min mode
+		switch {
+		case a.Clamp == "min" && die < a.CN:
+			die = a.CN
+		case a.Clamp == "max" && die > a.CN:
+			die = a.CN
+		}
+		return num{i: n * die}
 	case "paren":
 		return a.E.eval(mode)
 	}
@@ -593,6 +612,10 @@ func run(c Case) (log []logEntry, err error, rest string, pi *rt.PanicInfo) {
 		log = append(log, logEntry{t, name, val, extra, op, detail})
 	}
 	src := c.Source()
+	if c.Via == "expr" {
+		pi = rt.Guard(func() { _, err = vm.RunExpr(src, false) })
+		return
+	}
 	pi = rt.Guard(func() { err = vm.Run(src) })
 	rest = vm.RestInput
 	return
@@ -747,10 +770,16 @@ func genDice(t *rapid.T, mode string, countless bool) Atom {
 	if mode != "" {
 		m = int64(rapid.IntRange(1, 20).Draw(t, "sides"))
 	}
+	a := Atom{K: "dice", I: int64(rapid.IntRange(1, 9).Draw(t, "count")), M: m}
 	if countless {
-		return Atom{K: "d", M: m}
+		a = Atom{K: "d", M: m}
 	}
-	return Atom{K: "dice", I: int64(rapid.IntRange(1, 9).Draw(t, "count")), M: m}
+	if rapid.IntRange(0, 4).Draw(t, "clamp") == 0 {
+		// the clause of one edit's dice must not reach the dice of a later edit of the list
+		a.Clamp = rapid.SampledFrom([]string{"min", "max"}).Draw(t, "clampKind")
+		a.CN = int64(rapid.IntRange(1, int(m)+2).Draw(t, "clampN"))
+	}
+	return a
 }
 
 // genIntAtom: an int-valued operand (inside parentheses everything is allowed)
@@ -1186,7 +1215,7 @@ func TestProp(t *testing.T) {
 	run := rt.Begin(t, "C18")
 	defer run.Finish()
 
-	listRule := "structured lists of 1..8 edits, all assignments (name+value juxtaposed, name:value, name=value with optional blanks, name*:v, name*k:v, &name=expr) or all modifications (+ += - -=, optional blanks), names plain (CJK/ASCII/other letters), namespaced a:b or quoted with digits/blanks/colons, values ints, floats, NdM dice (one-sided, or any sides under DiceMinMode/DiceMaxMode), parenthesised + - * expressions, bare arithmetic tails in modifications, separators '' ' ' ',' and blanks round the comma, optional trailing blank; printed as ^st..., CallbackSt log compared element by element with the structure (type, verbatim name, reference value with '-' sign rule, extra, op, detail text; computed values additionally executed), no error, nothing left unparsed; non-trivial = at least 2 edits and (two different separators, or a namespaced or quoted name); distinct by mode+source text"
+	listRule := "structured lists of 1..8 edits, all assignments (name+value juxtaposed, name:value, name=value with optional blanks, name*:v, name*k:v, &name=expr) or all modifications (+ += - -=, optional blanks), names plain (CJK/ASCII/other letters), namespaced a:b or quoted with digits/blanks/colons, values ints, floats, NdM dice (one-sided, or any sides under DiceMinMode/DiceMaxMode; one in five with a min<k>/max<k> clause), one list in eight evaluated through RunExpr instead of Run, parenthesised + - * expressions, bare arithmetic tails in modifications, separators '' ' ' ',' and blanks round the comma, optional trailing blank; printed as ^st..., CallbackSt log compared element by element with the structure (type, verbatim name, reference value with '-' sign rule, extra, op, detail text; computed values additionally executed), no error, nothing left unparsed; non-trivial = at least 2 edits and (two different separators, or a namespaced or quoted name); distinct by mode+source text"
 
 	run.Check("lists", 100000, 1200000, listRule, func(t *rapid.T, s *rt.Section) {
 		max := 8
@@ -1194,6 +1223,10 @@ func TestProp(t *testing.T) {
 		if why := c.outside(); why != "" {
 			s.Discard("outside-domain:" + why)
 			return
+		}
+		if rapid.IntRange(0, 7).Draw(t, "viaRunExpr") == 0 {
+			c.Via = "expr"
+			s.Class("via:RunExpr")
 		}
 		s.Eval()
 		h := hashCase(c)
